@@ -99,6 +99,12 @@ Judge(T) ==
                     k \in {k \in DOMAIN C : Missing(C[k]) /\ T.fp[k] # (IF T.am = 1 THEN 0 ELSE 1)}}
            ELSE {})
      \cup (IF O.csame # 1 \/ O.lsame # 1 \/ O.rsame # 1 THEN {<<"C12", "inputs-modified", 0, 0>>} ELSE {})
+     (* implementation layer (hook events): cache decision |L| + |R| < 2 |C| and the chunk sizes *)
+     \cup (IF T.hook.have = 1 /\ T.kind = "matcher" /\ Len(C) > 0
+              /\ T.hook.cache # (IF T.tokmode = 1 /\ Len(T.L) + Len(T.R) < 2 * Len(C) THEN 1 ELSE 0)
+           THEN {<<"DRIFT", "token-cache-decision", T.hook.cache, Len(C)>>} ELSE {})
+     \cup (IF T.hook.have = 1 /\ Len(C) > 0 /\ T.hook.nin # Len(C)
+           THEN {<<"DRIFT", "chunks-do-not-cover-the-candidate-set", T.hook.nin, Len(C)>>} ELSE {})
      \cup (IF O.fa # O.fb THEN {<<"C12", "flag", 0, 0>>} ELSE {})
 
 Init == i = 0 /\ verdict = {}
